@@ -4,14 +4,14 @@ cd /verif
 declare -A extra=( [C16]=C17 [C17]=C16 [C13]=C10,C11 [C10]=C13 [C11]=C21 [C21]=C11 [C18]=C16 [C19]=C16,C17 [C23]=C22 [C22]=C23 [C14]=C38 [C38]=C14,C13 [C24]=C25 [C25]=C24 [C02]=C01 [C06]=C08 [C07]=C08 [C08]=C07 [C09]=C08 [C04]=C05,C03 [C05]=C04 [C03]=C04 [C20]=C19 [C37]=C16,C11 )
 while true; do
   did=0
-  for d in /tmp/seeds/C*/; do
+  for d in ${SEED_SRC:-/tmp/seeds}/C*/; do
     id=$(basename $d)
     [ -f $d/meta.json ] || continue
-    [ -f work/confirm_$id.log ] && continue
+    [ -f work/confirm${SEED_SUFFIX}_$id.log ] && continue
     chk=$id; [ -n "${extra[$id]}" ] && chk=$id,${extra[$id]}
-    python3 tools/confirm_seed.py $id --checks $chk > work/confirm_$id.log 2>&1
+    python3 tools/confirm_seed.py $id --checks $chk > work/confirm${SEED_SUFFIX}_$id.log 2>&1
     did=1
   done
   [ $did = 0 ] && sleep 120
-  [ -f work/confirm_stop ] && exit 0
+  [ -f work/confirm${SEED_SUFFIX}_stop ] && exit 0
 done
